@@ -45,6 +45,7 @@ type PropertyDef struct {
 	ReplayHints  map[string]string
 	NeedsClauses map[string][]string // named clauses that must have produced obligations (vacuity)
 	OnlySafe     bool
+	Sequential   bool
 	LevelText    string
 	LevelNote    string
 	Technique    string
@@ -136,6 +137,7 @@ func cmdCheck(args []string) int {
 	eng := newEngine(repoDir())
 	eng.requireVariants = prop.RequireVars
 	eng.onlySafe = prop.OnlySafe
+	eng.sequential = prop.Sequential
 	if err := eng.load(prop.Patterns...); err != nil {
 		// a tree that does not build is a tool error, not a violation
 		fmt.Fprintln(os.Stderr, "TOOL-ERROR:", err)
